@@ -17,6 +17,8 @@ mod cli_w;
 mod proto_w;
 mod bisync_w;
 mod serve_w;
+mod oneway_w;
+mod killer;
 #[global_allocator]
 static GLOBAL: proto_w::Tracking = proto_w::Tracking;
 /// the CLI's modules, #[path]-included unedited from the tree under check
@@ -100,6 +102,9 @@ fn search(contract: &str, seed: u64, budget: u64) -> i32 {
     if c == "serve" || c.starts_with("handle_") || c.ends_with("safe_join") || c.ends_with("read_frame") || c.ends_with("write_frame") || c.ends_with("read_magic") || c.ends_with("tmp_of") || c.ends_with("::serve") {
         return serve_w::search(c, false);
     }
+    if c == "oneway" || c.starts_with("deliver_") || c.ends_with("transfer_file_from_remote") || c.ends_with("transfer_file_to_remote") || c.ends_with("tmp_path") {
+        return oneway_w::search(false, budget > 60);
+    }
     if c.starts_with("run_") || c.starts_with("cli") {
         return cli_w::search(c, seed, false);
     }
@@ -125,6 +130,7 @@ fn run(w: &str) -> i32 {
         "patch" => patch_w::run(w),
         "cli" => cli_w::run_w(w),
         "serve" => serve_w::run_w(w),
+        "oneway" => oneway_w::run_w(w),
         "bisync" => bisync_w::run_w(w),
         "bisync-trace" => bisync_w::run_trace(w),
         "pairid" => { match bisync_w::pair_id_injective() { Some(x) => { println!("REPRODUCED: {x}"); 1 } None => { println!("not reproduced"); 0 } } }
@@ -149,6 +155,7 @@ fn twin(name: &str, seed: u64, budget: u64) -> i32 {
         "is_excluded" => twins::is_excluded(seed, budget),
         "cli_chain" => cli_w::search("cli", seed, true),
         "serve_sessions" => serve_w::search("serve", true),
+        "oneway_crashes" => oneway_w::search(true, budget > 60),
         "bisync_histories" => bisync_w::search("bisync", true),
         "signature_generate" => engine_w::twin_signature_generate(seed, budget),
         "signature_structure" => engine_w::twin_signature_structure(seed, budget),
